@@ -91,6 +91,7 @@ def check(ctx, rep):
                 good = src == selff("data") and n == S("dc")
     rep.check(good, "printing-order", MC + "::to_printer", "chunks", "printed cell n = data[n*dc .. (n+1)*dc]", "to_printer does not cut the data into consecutive digit_count-sized chunks")
     cell_text_rule(ctx, rep)
+    card_size_rule(ctx, rep)
     # ---------------- verifier roles
     vr = roles.ctor_field_roles(ctx, MV + "::new", MV, {1: "cc", 2: "h", 4: "w"}, lambda c: "coords" if util.is_call(c, "matrix_card::generate_coordinates") else None, engine="wrap") or {}
     vi = roles.inv(vr)
@@ -506,3 +507,71 @@ def cell_text_rule(ctx, rep):
         if not okm:
             bad.append(o)
     rep.check(not bad, rule, "MatrixCardPrinter", "overrides", "no Iterator method of the printer bypasses the rendering of next()", "the printer overrides %s with something that is not chunks.<method>().map(<digit-by-digit rendering>)" % bad)
+
+
+# ------------------------------------------------------------------------------------ card data length
+
+def _card_size(t):
+    """t is digit_count * height * width of the constructor's first three parameters: the call
+    get_matrix_card_size(arg1, arg2, arg3) or the product spelled out"""
+    t = strip(t)
+    if util.is_call(t, MC + "::get_matrix_card_size") and tuple(strip(x) for x in t[2]) == (("param", 1), ("param", 2), ("param", 3)):
+        return True
+    n = arith.norm(t, {("param", 1): "a", ("param", 2): "b", ("param", 3): "c"})
+
+    def factors(x):
+        if isinstance(x, tuple) and x and x[0] == "mul":
+            out = []
+            for y in (x[1] if isinstance(x[1], (set, frozenset)) else x[1:]):
+                out += factors(y)
+            return out
+        return [x]
+    return sorted(map(str, factors(n))) == sorted(map(str, [("sym", "a"), ("sym", "b"), ("sym", "c")]))
+
+
+def card_size_rule(ctx, rep):
+    """every cell offset (cell-offset rule) lies inside the data only if a card's data has exactly
+    digit_count * height * width bytes: `from_data` builds a card only behind that equality (a
+    shorter vector would make the lookups and the server-side check panic, a longer one prints
+    cells that are on no card); `new` allocates exactly that many (C15 decides what fills them)"""
+    fn = MC + "::from_data"
+    se = ctx.wrap.run(fn)
+    if se is None:
+        rep.violation("cell-offset", fn, "data-length", "from_data not found")
+        return
+    body = se.body
+
+    def is_len_eq(d):
+        """+1 when d is len(data) == size, -1 when !=, else 0"""
+        d = strip(d)
+        neg = 1
+        while d[0] == "unop" and d[1] == "Not":
+            neg = -neg
+            d = strip(d[2])
+        if d[0] != "binop" or d[1] not in ("Eq", "Ne"):
+            return 0
+        a, b = util.numnorm(d[2]), util.numnorm(d[3])
+        def is_len(x):
+            x = strip(x)
+            if x[0] == "len":
+                return strip(x[1]) == ("param", 4)
+            return util.is_call(x) and x[1].endswith("::len") and len(x[2]) == 1 and strip(x[2][0]) == ("param", 4)
+        ok = (is_len(a) and _card_size(b)) or (is_len(b) and _card_size(a))
+        return (neg if d[1] == "Eq" else -neg) if ok else 0
+
+    good = False
+    why = "no test data.len() == digit_count * height * width"
+    aggs = [bi for bi, si, s_ in util.blocks_constructing(body, MC)]
+    for bb, d, f_t, t_t in util.bool_switches(se):
+        sg = is_len_eq(d)
+        if sg and aggs:
+            eq_t = t_t if sg > 0 else f_t
+            good = all(cfg.must_pass_edge(body, (bb, eq_t), bi) for bi in aggs)
+            why = "the card is built only behind data.len() == digit_count * height * width" if good else "a card can be built without passing the length test"
+    if not good and not aggs:
+        vs = util.strip(se.ret)
+        # (data.len() == size).then(|| Self { .. })
+        if util.is_call(vs, "core::bool::<impl bool>::then") and is_len_eq(vs[2][0]) > 0:
+            good = True
+            why = "(data.len() == digit_count * height * width).then(|| card)"
+    rep.check(good, "cell-offset", fn, "data-length", why, "from_data does not insist on exactly digit_count * height * width bytes: " + why, body.loc())
